@@ -20,6 +20,8 @@ type ParseCase struct {
 	// ExecErr: what Execute returns: "" (nil), "help" (a *flags.Error of type
 	// ErrHelp), "plain" (a foreign error)
 	ExecErr string `json:"exec_err,omitempty"`
+	// Ini: entries read from an INI file before the command line is parsed
+	Ini []IniLine `json:"ini,omitempty"`
 }
 
 var errExecPlain = errors.New("sentinel: command failed")
